@@ -151,7 +151,10 @@ def registry_inputs(ck):
         out.append(('zoo', smi))
     for k in range(0, 5):
         for l in ends_l:
-            for r in (ends_r if k < 2 or ck.tier != 'quick' else ends_r[:8]):
+            for j, r in enumerate(ends_r):
+                # quick: every right end for the first 9 left ends of plain double bonds and allenes, a rotating third otherwise
+                if ck.tier == 'quick' and not ((k < 2 and ends_l.index(l) < 9) or (j + ends_l.index(l) + k) % 3 == 0):
+                    continue
                 out.append((f'chain{k + 2}', f'{l}={"C=" * k}{r}'))
     npool = 120 if ck.tier == 'quick' else 1200
     for smi in corpus.sample(corpus.lipo(), npool, ck.seed, 'c12reg'):
@@ -166,7 +169,8 @@ def registry_inputs(ck):
         if m is None or not hasattr(m, '_bonds'):
             continue
         mols.append((fam, smi, m))
-        mols.append((fam + ':shuffled', smi, reshuffle(m, rng)))
+        if ck.tier != 'quick' or not fam.startswith('chain') or len(mols) % 3 == 0:
+            mols.append((fam + ':shuffled', smi, reshuffle(m, rng)))
     return mols
 
 
@@ -469,7 +473,7 @@ def search_stereogenic(ck, pool):
     fam += [(x, 'acyclic') for x in ('C[C@](C)(F)Cl', 'CC[C@](CC)(F)Cl', 'C[C@H](C)O', 'C[C@H](CC)O', 'CC[C@](C)(F)Cl', 'F[C@](F)(Cl)Br',
                                      'C[C@@H](N)C(=O)O', 'OC(=O)[C@H](O)C(=O)O', 'C/C=C(/C)C', 'C/C=C(/C)CC', 'F/C=C(/F)F', 'F/C=C/F',
                                      'C[C@H]1CC1', 'C[C@H]1CCC1', 'C[C@H]1CCO1', 'C[C@@H]1CCCCC1', 'C[C@@H]1CCCC(C)C1')]
-    # double bonds at hypervalent S / P (four neighbours: not planar, so no cis/trans): finding hypervalent-double-bond
+    # double bonds at hypervalent S / P (four neighbours: not planar, so no cis/trans): fixed in 2e29c31
     fam += [(x, 'hypervalent') for x in ('C/N=S(/C)(C)=O', 'C/C=P(/C)(C)C', 'C/N=S(/C)(=O)c1ccccc1', 'CN=S(C)(C)=O')]
     fam += [(x, 'corpus') for x in pool]
     for smi, family in fam:
@@ -503,7 +507,7 @@ def search_stereogenic(ck, pool):
 
 def search_printable(ck):
     """every molecule that smiles() returns can be written, hashed and compared (str / hash / == never raise): cut cumulene
-    chains at hypervalent atoms share an end atom between two cis/trans entries (finding str-raises)"""
+    chains at hypervalent atoms shared an end atom between two cis/trans entries (fixed in 2e29c31)"""
     from chython import smiles
     for smi in ('C/N=S(/C)(C)=NC', 'C/N=S(/C)(C)=N/C', 'C/C=S(/C)(C)=C/C', 'CN=S(C)(C)=NC', 'C/C=C/S(C)(=O)=NC', 'F/C=C=S(=O)=NC',
                 'C/N=S(/C)(C)=O', 'C/C=C=C=C/C', 'C/C=C/C=C/C', 'O=S(=O)(/C=C/C)N=C'):
@@ -521,19 +525,6 @@ def search_printable(ck):
             ck.counterexample(f'str-raises:{smi}', f'a molecule returned by smiles() cannot be written: str() raises {type(e).__name__}',
                               {'smiles': smi}, repr(e), 'a SMILES string', 'totality of str() on reader output',
                               replay_py=f"from chython import smiles; m=smiles({smi!r}); print(str(m))")
-
-
-def replay_refuted(ck):
-    """the witness of C12_cis_trans_terminals_maximal_refuted on the real code: in FC=C=S(=O)=NC the inner bond C2=C3 of the linear
-    C=C=S unit is a key of stereogenic_cis_trans although atom 3 carries two double bonds"""
-    from chython import smiles
-    m = smiles('FC=C=S(=O)=NC')
-    ok = (2, 3) in m.stereogenic_cis_trans and sum(1 for b in m._bonds[3].values() if int(b) == 2) == 2 and list(m._atoms) == [1, 2, 3, 4, 5, 6, 7]
-    ck.oblige('replay: witness of C12_cis_trans_terminals_maximal_refuted on the real code (FC=C=S(=O)=NC)', ok, 'replay',
-              f'stereogenic_cis_trans = {m.stereogenic_cis_trans}')
-    ck.case(('refuted-replay', 'FC=C=S(=O)=NC'))
-    if not ok:
-        ck.unchecked('refuted witness no longer replays: the model of `cumulenes` must follow the code', str(m.stereogenic_cis_trans))
 
 
 def search_allenes(ck):
@@ -652,7 +643,6 @@ def run(ck):
     proved = common.standard_proof_steps(ck, translators=['stereo', 'elements'], extra_targets=['model/StereoRegistry.vo'])
     tied = corr_translate(ck)
     tied = corr_registries(ck) and tied
-    replay_refuted(ck)
     search(ck, 150 if ck.tier == 'quick' else 1500)
     ck.extra['proved'] = proved
     ck.extra['tied'] = tied
